@@ -4,3 +4,4 @@
 #include "kernel/vita.h"
 #include "kernel/gp/src/holdout_validation.cc"
 #include "kernel/gp/src/dss.cc"
+#include "kernel/gp/src/dataframe.cc"
